@@ -43,6 +43,11 @@ NUM_USES = [
     ("two-implicit", ["10 D(1)=1:E(2)=2:F$(3)=\"A\""]), ("dim-after-use-of-other", ["10 A=1", "20 DIM C(2)", "30 C(1)=A"]),
 ]
 STR_USES += [
+    ("implicit-array-INPUT-target-and-assigned", ["10 {X}$(2)=\"X\"", "20 INPUT {X}$(1)"]),
+    ("implicit-array-INPUT-target-and-assigned", ["10 {X}$(2)=\"X\"", "20 LINE INPUT {X}$(1)"]),
+    ("implicit-array-READ-target-and-assigned", ["10 {X}$(2)=\"X\"", "20 READ {X}$(1)", "30 DATA Q"]),
+    ("several-DIM-statements", ["10 DIM {X}$(4),C(20)", "20 DIM D(3)", "30 C(1)=D(2):{X}$(1)=\"X\":E(1)=2"]),
+    ("several-DIM-statements", ["10 DIM {X}$", "20 DIM Q$(3)", "30 DIM R$,{X}$(2)", "40 {X}$=Q$(1)+R$+{X}$(1)"]),
     ("scalar-beside-dimensioned-array-of-one-name", ["10 DIM {X}$(5)", "20 {X}$=\"A\":{X}$(1)={X}$"]),
     ("scalar-beside-dimensioned-array-of-one-name", ["10 DIM {X}$(5),Q$", "20 Z=LEN({X}$)+LEN({X}$(2))"]),
     ("scalar-beside-implicit-array-of-one-name", ["10 {X}$(1)=\"A\":{X}$=\"B\""]),
@@ -50,6 +55,8 @@ STR_USES += [
     ("dimensioned-scalar-and-array-of-one-name", ["10 DIM {X}$,{X}$(4)", "20 {X}$(1)={X}$"]),
 ]
 NUM_USES += [
+    ("implicit-array-INPUT-target-and-assigned", ["10 D(2)=1", "20 INPUT D(1)"]),
+    ("several-DIM-statements", ["10 DIM C(20)", "20 DIM D(3),E(1,2)", "30 C(1)=D(2)+E(1,1):F(1)=2"]),
     ("scalar-beside-array-of-one-name", ["10 DIM C(4)", "20 C=1:C(1)=C"]), ("scalar-beside-implicit-array-of-one-name", ["10 D=1:D(1)=D"]),
 ]
 # every expression position once with a string scalar, a string array element and an implicit numeric array element in it
